@@ -3,10 +3,12 @@ package openapi3filter
 // C05, deepObject parameters whose schema or whose members' schemas are compositions.
 
 import (
+	"context"
 	"net/http"
 	"net/url"
 
 	"github.com/getkin/kin-openapi/openapi3"
+	"github.com/getkin/kin-openapi/routers"
 )
 
 //verif:harness id=C05 tier=quick,thorough witness=end,typed,illtyped bounds="deepObject with compositions: query parameter p whose member a has schema oneOf / anyOf [integer, boolean] (either order) or allOf [T, constraint-only] (either order), or whose own schema is allOf of two object schemas declaring a and b; every printable-ASCII leaf text of 1-2 bytes without [ ] = &: a text that is a serialisation of (one of) the declared type(s) decodes to that typed value under the member's name; any other text is never decoded to a value"
@@ -73,3 +75,66 @@ func verifH_C05_deepobject_compositions() {
 	}
 	verifReach("end")
 }
+
+// verifSameNameLocations: a path-item parameter and an operation parameter that share a name but
+// not a location are two parameters; both are in effect.
+func verifSameNameLocations(id string) {
+	intS := verifPrimSchema("integer")
+	locs := []string{"query", "header", "cookie"}
+	piIn := locs[verifChoose("pathItemIn", 3)]
+	opIn := locs[verifChoose("operationIn", 3)]
+	piParam := &openapi3.Parameter{Name: "id", In: piIn, Required: true, Schema: intS}
+	opParam := &openapi3.Parameter{Name: "id", In: opIn, Required: verifChoose("opRequired", 2) == 1, Schema: intS}
+	d := "d"
+	resps := openapi3.NewResponsesWithCapacity(1)
+	resps.Set("200", &openapi3.ResponseRef{Value: &openapi3.Response{Description: &d}})
+	op := &openapi3.Operation{Responses: resps, Parameters: openapi3.Parameters{{Value: opParam}}}
+	pi := &openapi3.PathItem{Get: op, Parameters: openapi3.Parameters{{Value: piParam}}}
+	req := &http.Request{Method: "GET", Header: http.Header{}, URL: &url.URL{Path: "/"}}
+	q := url.Values{}
+	texts := []string{"", "5", "x"} // absent, well-formed, not an integer
+	put := func(in string, t string) {
+		switch in {
+		case "query":
+			q["id"] = []string{t}
+		case "header":
+			req.Header["Id"] = []string{t}
+		case "cookie":
+			req.Header["Cookie"] = []string{"id=" + t}
+		}
+	}
+	piText := texts[verifChoose("pathItemText", 3)]
+	opText := piText
+	if piIn != opIn {
+		opText = texts[verifChoose("operationText", 3)]
+	}
+	if piText != "" {
+		put(piIn, piText)
+	}
+	if opText != "" && piIn != opIn {
+		put(opIn, opText)
+	}
+	req.URL.RawQuery = q.Encode()
+	input := &RequestValidationInput{Request: req, PathParams: map[string]string{}, QueryParams: q,
+		Route: &routers.Route{Spec: &openapi3.T{}, PathItem: pi, Operation: op, Method: "GET"}, Options: &Options{}}
+	err := ValidateRequest(context.Background(), input)
+	want := true
+	if piIn == opIn {
+		// the operation's parameter overrides the path item's: only the operation's requiredness counts
+		if opText == "x" || (opText == "" && opParam.Required) {
+			want = false
+		}
+	} else {
+		if piText != "5" { // required: absent or malformed fails
+			want = false
+		}
+		if opText == "x" || (opText == "" && opParam.Required) {
+			want = false
+		}
+	}
+	verifAssert((err == nil) == want, id+" same name: a path-item parameter is overridden only by an operation parameter of the same name and location; otherwise both are validated")
+	verifReach("end")
+}
+
+//verif:harness id=C05 tier=quick,thorough witness=end bounds="same name, different location: a required path-item parameter id (integer) in query / header / cookie and an operation parameter id in query / header / cookie (required or not); each absent, 5, or x; through ValidateRequest: the request passes iff every parameter in effect is present when required and well-formed when present"
+func verifH_C05_same_name_locations() { verifSameNameLocations("C05") }
